@@ -24,13 +24,19 @@ type Store struct {
 	GateWrites bool
 	// GateOpens: an Open parks until released.
 	GateOpens bool
-	pending   []*pendingOp
+	// FailWriteIn: countdown of WriteAt calls; the call that brings it to zero fails with ErrInjectedWrite
+	// and writes nothing (0 = off).
+	FailWriteIn int
+	pending     []*pendingOp
 	// OpenErr makes Open of that path fail.
 	OpenErr map[string]error
 	// ProviderErr makes GetStorage fail for that torrent id.
 	ProviderErr map[string]error
 	step        func() int
 }
+
+// ErrInjectedWrite is the I/O error of a write failed through FailWriteIn (disk full, EIO).
+var ErrInjectedWrite = errors.New("injected write error: no space left on device")
 
 type StoreOp struct {
 	Step int
@@ -157,6 +163,13 @@ func (h *handle) WriteAt(p []byte, off int64) (int, error) {
 		if pe.fail != nil {
 			s.Log = append(s.Log, StoreOp{Step: s.step(), Tor: h.t.id, Kind: "write", File: h.f.Name, Off: off, Len: len(p), Err: pe.fail.Error()})
 			return 0, pe.fail
+		}
+	}
+	if s.FailWriteIn > 0 {
+		s.FailWriteIn--
+		if s.FailWriteIn == 0 {
+			s.Log = append(s.Log, StoreOp{Step: s.step(), Tor: h.t.id, Kind: "write", File: h.f.Name, Off: off, Len: len(p), Err: ErrInjectedWrite.Error()})
+			return 0, ErrInjectedWrite
 		}
 	}
 	if h.closed {
